@@ -106,12 +106,31 @@ def adjust_case():
         nb = ctx.int("adjust", 0, 2 ** 32 - 1)
         c.out_window_size = w
         import struct
+        import threading
         raw = (lift(nb).to_bytes(4) if ctx.symbolic else struct.pack(">I", nb))
+
+        class Cv:
+            """the senders' condition variable: who gets woken, and under which lock"""
+            woke_all, woke_n, lock_held = False, 0, []
+
+            def notify_all(self):
+                Cv.woke_all = True
+                Cv.lock_held.append(c.lock.locked())
+
+            def notify(self, n=1):
+                Cv.woke_n += n
+                Cv.lock_held.append(c.lock.locked())
+        c.lock = threading.Lock()
+        c.out_buffer_cv = Cv()
         with ctx.patches(std_patches(PM, PU, builtins=("int",))):
             c._window_adjust(PM.Message(raw))
         ctx.prove(lift(c.out_window_size) == w + nb, "window-grows-by-exactly-the-adjust")
         ctx.prove(len(sent) == 0, "adjust-sends-nothing")
-    return Case("window-adjust-step", fn, ["window-grows-by-exactly-the-adjust"],
+        # any number of senders (stdout and stderr writers) may be asleep on an empty window: each of them has to be woken,
+        # or the ones left asleep never see the space (notify() wakes a single waiter)
+        ctx.prove(Cv.woke_all, "window-adjust-wakes-every-blocked-sender")
+        ctx.prove(all(Cv.lock_held) and not c.lock.locked(), "window-is-updated-and-senders-are-woken-under-the-channel-lock")
+    return Case("window-adjust-step", fn, ["window-grows-by-exactly-the-adjust", "window-adjust-wakes-every-blocked-sender"],
                 {"window": "0..2^40", "adjust": "0..2^32-1"}, fresh_first=True)
 
 
